@@ -1,6 +1,7 @@
 #!/bin/sh
 # run every check of one tier sequentially; usage: tools/runall.sh quick|thorough [seed] [props...]
 cd "$(dirname "$0")/.."
+mkdir -p .work evidence/replays
 TIER=${1:-quick}; SEED=${2:-20260928}; shift; shift
 PROPS=${*:-C01 C02 C03 C04 C05 C06 C07 C08 C09 C10 C11 C12 C13 C14 C15 C16 C17 C18 C19 C20}
 for p in $PROPS; do
